@@ -125,7 +125,9 @@ func (r *recorder) onCall(kind string, gen string, c gengo.Context, obj types.Ob
 	case "err":
 		return fmt.Errorf("scripted failure for %s", obj.Name())
 	}
-	c.Render(raw("// " + kind + " " + obj.Name() + "\n"))
+	if s.Action != "quiet" { // "quiet": nil without rendering; the file then exists only through what Defer callbacks render
+		c.Render(raw("// " + kind + " " + obj.Name() + "\n"))
+	}
 	r.register(c, gen, pkg, s.Defers)
 	return nil
 }
